@@ -165,4 +165,5 @@ var grpcDocMapping = map[codes.Code]int{
 	codes.Unimplemented: 501, codes.Unavailable: 503, codes.Unauthenticated: 401,
 	// "unknown -> 500"
 	codes.Unknown: 500, codes.Internal: 500, codes.DataLoss: 500,
+	codes.Code(42): 500, codes.Code(17): 500,
 }
